@@ -1,0 +1,7 @@
+//go:build !verif
+
+package jsonrpc
+
+// vpoint marks a verification trace / scheduling point. It compiles to nothing
+// unless the module is built with -tags verif (see verif_on.go).
+func vpoint(c interface{}, ev string, kv ...interface{}) {}
